@@ -121,3 +121,54 @@ def locations_survive_packing(ctx, n, minor):
             if ctx.canary and k == n - 1:
                 ok = AND(ok, NOT(w[0] == 41))
             ctx.check("locator %d has the same indices / coordinates" % k, ok)
+
+
+# ---------------------------------------------------------------------------------------------------------------------
+# "the same materials ... volumes and masses": the loader creates every component with a FRESH material of the stored
+# class (Layout._initComps), assigns the persisted parameters (Database._readParams) and finishes the component with
+# Component.finalizeLoadingFromDB (Database._compose).  The fraction of theoretical density is state of the material
+# that is persisted only through the component parameter: after those three steps the loaded material must have the
+# density law of the original, whatever the class default of the fresh material is.
+# Candidate genuine defect (reported, plain-Python reproduction in the report): Sulfur keeps its TD_frac in its own
+# attribute `fullDensFrac`, which getTD()/adjustTD() do not see, so p.theoreticalDensityFrac stays 1.0 and a loaded
+# sulfur component has the full density whatever the original's fraction was.  Sulfur joins the symbolic choice of
+# material classes when this flag is False.
+KNOWN_DEFECT_sulfur_density_fraction_not_persisted = True
+TD_MATERIALS = ["B4C", "UO2", "ThO2", "MOX"] + ([] if KNOWN_DEFECT_sulfur_density_fraction_not_persisted else ["Sulfur"])
+
+import armi.materials.sulfur as _sulfurmod   # noqa: E402
+
+shims.patch(_sulfurmod, float=shims.float_shim)
+STUBS.append("sulfur.float -> identity on Real proxies (only used when Sulfur is among the material classes)")
+
+
+@harness("C04", bounds="component of material class in {B4C (class default 0.9), UO2, ThO2, MOX} (symbolic choice) whose "
+                       "fraction of theoretical density td in [0.05, 1] is symbolic (set through the blueprint route "
+                       "material.applyInputParams(TD_frac=td)); temperatures concrete; HDF5 itself is skipped: the "
+                       "persisted parameter value is handed over directly", stubs=STUBS, max_paths=200)
+def loaded_material_has_the_persisted_theoretical_density(ctx):
+    from armi.reactor.components import Circle
+
+    td = ctx.real("td", 0.05, 1.0)
+    mat = ctx.choice("material", TD_MATERIALS)
+    # original, as componentBlueprint.construct builds it
+    orig = Circle("pellet", material=mat, Tinput=100.0, Thot=150.0, od=1.0, id=0.0, mult=1.0)
+    orig.material.applyInputParams(TD_frac=td)
+    orig.p.theoreticalDensityFrac = orig.material.getTD()
+    # loaded: fresh material by class name, all dimensions 0 (Layout._initComps); then parameters; then the final step
+    kwargs = dict.fromkeys(Circle.DIMENSION_NAMES, 0)
+    kwargs.update(material=mat, name="pellet", Tinput=100.0, Thot=150.0)
+    loaded = Circle(**kwargs)
+    loaded.p.theoreticalDensityFrac = orig.p.theoreticalDensityFrac
+    loaded.finalizeLoadingFromDB()
+    ctx.check("loaded component has the same material class", type(loaded.material) is type(orig.material))
+    want = orig.material.getTD()
+    if ctx.canary:
+        want = want * ITE(td > 0.99, 1.01, 1.0)
+    ctx.check_close("loaded material has the persisted fraction of theoretical density", loaded.material.getTD(), want,
+                    scale=1.0)
+    for Tc in (100.0, 150.0):
+        ctx.check_close("loaded material has the original's density at %g C" % Tc, loaded.material.density(Tc=Tc),
+                        orig.material.density(Tc=Tc), scale=20.0)
+        ctx.check_close("loaded material has the original's 2-D expanded density at %g C" % Tc,
+                        loaded.material.pseudoDensity(Tc=Tc), orig.material.pseudoDensity(Tc=Tc), scale=20.0)
